@@ -12,6 +12,7 @@ import (
 	"sync"
 	"testing"
 	"testing/iotest"
+	"time"
 
 	"github.com/elliotchance/gedcom/v39"
 	"pgregory.net/rapid"
@@ -45,6 +46,15 @@ func trunc(s string) string {
 }
 
 var errInjected = fmt.Errorf("injected read failure")
+
+// guarded runs check under a watchdog: a Decode that does not return is as much a failure of "returns a
+// document or an error" as a panic is, and it cannot be stopped from inside the process. 60 s is
+// thousands of times what the largest generated stream (1 MB, 10 000 levels) takes.
+func guarded(s *harness.Sub, c crashCase) (*harness.Failure, string) {
+	stop := s.Watchdog(60*time.Second, c, harness.Failf("decode-does-not-return", "Decode did not return within 60 s (AllowMultiLine=%v AllowInvalidIndents=%v via %q) for the %d bytes %q", c.MultiLine, c.InvalidInds, c.Via, len(c.Data), trunc(string(c.Data))))
+	defer stop()
+	return check(c)
+}
 
 func check(c crashCase) (fl *harness.Failure, outcome string) {
 	data := string(c.Data)
@@ -234,7 +244,7 @@ func TestCheckNoCrash(t *testing.T) {
 				c.Via, c.FailAt = "failing-reader", 1+(len(data)*7+o*13)%len(data)
 			}
 			s.Crumb(c)
-			fl, outcome := check(c)
+			fl, outcome := guarded(s, c)
 			key := fmt.Sprintf("%d|%s", o, data)
 			s.Eval([]byte(key), true, "outcome:"+outcome)
 			if len(data) < 300 {
@@ -315,7 +325,9 @@ func TestCheckParallelDecoders(t *testing.T) {
 		c.Streams = append(c.Streams, gen.Str(rapid.SampledFrom([]string{"hello\n", "0 A\nhello\n", "0 HUSB @I1@\n", "0 @I1@ INDI\n1 CHIL\n"}).Draw(rt, "refused")),
 			gen.Str("0 HEAD\n1 CHAR UTF-8\n0 @I1@ INDI\n1 NAME John /Smith/\n1 BIRT\n2 DATE 3 Sep 1943\n0 @F1@ FAM\n1 HUSB @I1@\n0 TRLR\n"))
 		s.Crumb(c)
+		stop := s.Watchdog(120*time.Second, c, harness.Failf("decode-does-not-return", "%d decoders at the same time did not all return within 120 s", 2*len(c.Streams)))
 		fl := checkParallel(c)
+		stop()
 		s.Eval(harness.JSON(c), true, fmt.Sprintf("streams:%d", len(c.Streams)))
 		total := 0
 		for _, d := range c.Streams {
@@ -341,7 +353,7 @@ func TestCheckAdversarialExhaustive(t *testing.T) {
 		for cut := 0; cut <= len(a); cut++ {
 			for o := 0; o < 4; o++ {
 				c := crashCase{Data: gen.Str(a[:cut]), MultiLine: o&1 != 0, InvalidInds: o&2 != 0}
-				fl, outcome := check(c)
+				fl, outcome := guarded(s, c)
 				s.EvalN(1, 1, "outcome:"+outcome)
 				if cut == len(a) && o == 3 && len(a) > 20 && len(a) < 40 {
 					s.Sample(c)
@@ -352,7 +364,7 @@ func TestCheckAdversarialExhaustive(t *testing.T) {
 				// the same prefix when the stream does not end there but breaks off with a read error
 				if cut < len(a) {
 					cf := crashCase{Data: gen.Str(a), MultiLine: o&1 != 0, InvalidInds: o&2 != 0, Via: "failing-reader", FailAt: cut}
-					fl, outcome := check(cf)
+					fl, outcome := guarded(s, cf)
 					s.EvalN(1, 1, "outcome:"+outcome)
 					if fl != nil {
 						s.Report(cf, fl)
@@ -389,8 +401,14 @@ func init() {
 		if err := json.Unmarshal(raw, &c); err != nil {
 			return harness.Failf("bad-replay", "%v", err)
 		}
-		fl, _ := check(c)
-		return fl
+		done := make(chan *harness.Failure, 1)
+		go func() { fl, _ := check(c); done <- fl }()
+		select {
+		case fl := <-done:
+			return fl
+		case <-time.After(60 * time.Second):
+			return harness.Failf("decode-does-not-return", "Decode did not return within 60 s (AllowMultiLine=%v AllowInvalidIndents=%v via %q) for the %d bytes %q", c.MultiLine, c.InvalidInds, c.Via, len(c.Data), trunc(string(c.Data)))
+		}
 	}
 	for _, n := range []string{"generated-streams", "adversarial-truncations", "fuzz"} {
 		harness.RegisterReplay(n, replay)
